@@ -100,9 +100,10 @@ def sign_tail():
             st.ghost['events'] = st.ghost.get('events', ()) + (('addnew', a),)
             return [(st, E.VNone())]
         # addnew takes keyword arguments: capture them through a kws-aware hook
-        def addnew_kw(ex, st, o, a):
-            st.ghost['events'] = st.ghost.get('events', ()) + (('addnew', a),)
+        def addnew_kw(ex, st, o, a, kws):
+            st.ghost['events'] = st.ghost.get('events', ()) + (('addnew', (a, kws)),)
             return [(st, E.VNone())]
+        addnew_kw.wants_kws = True
         r.hook('pgpy.packet.fields.SubPackets', 'addnew', scn.method_hook(addnew_kw))
         HD = z3.Const('HASHDATA_OF_THE_SUBJECT', B)
         subject = E.VBytes(z3.Const('SUBJECT', B))
@@ -155,6 +156,11 @@ def sign_tail():
                 r.oblige(s, 'left-16-bits-of-the-digest-of-the-hash-data/p%d' % pi,
                          z3.And(hashed[0][1] == HD, ex.seq(h2, s) == z3.Extract(hashed[0][2], 0, 2)))
             r.oblige(s, 'returns-the-signature/p%d' % pi, z3.BoolVal(v is sig))
+            adds = [e[1] for e in ev if e[0] == 'addnew']
+            fp = [(a, k) for a, k in adds if isinstance(a[0], E.VStr) and a[0].s == 'IssuerFingerprint']
+            r.oblige(s, 'issuer-fingerprint-subpacket-hashed-with-the-fingerprint-of-the-signing-component/p%d' % pi,
+                     z3.BoolVal(len(fp) == 1 and isinstance(fp[0][1].get('hashed'), E.VBool) and z3.is_true(fp[0][1]['hashed'].z)
+                                and fp[0][1].get('_issuer_fpr') is FPR))
         return r.result()
     return Scenario(label, KEY + '._sign', gen, props=('C02', 'C18'))
 
